@@ -6,9 +6,9 @@ HEADER = "From RM Require Import Util RingModel FullSync PoolRun Arc."
 
 def mk_case(N, hs, progs, sched, meta=None, shared=0):
     line = "arc N=%d hs=%s%s ; " % (N, ",".join(map(str, hs)), " shared=1" if shared else "") + " ; ".join(" ".join(p) for p in progs) + " ; S " + " ".join(map(str, sched))
-    cop = {"clone": "RClone", "drop": "RDrop", "count": "RCount", "read": "RRead"}
-    # (a handle that several threads borrow and clone has no counterpart in the model, where every handle has one owning thread: oracle only)
-    coq = None if shared else "run_arc %d [%s] [%s] [%s]%%nat" % (N, "; ".join(map(str, hs)), "; ".join("[" + "; ".join(cop[o] for o in p) + "]" for p in progs), "; ".join(map(str, sched)))
+    cop = {"clone": "RClone", "drop": "RDrop", "count": "RCount", "read": "RRead", "sclone": "RSClone", "scount": "RSCount"}
+    # shared=1: one more handle, owned by no acting thread and alive throughout, is borrowed by the threads (`sclone` / `scount`): the model's `perm`
+    coq = "%s %d [%s] [%s] [%s]%%nat" % ("run_arc_shared" if shared else "run_arc", N, "; ".join(map(str, hs)), "; ".join("[" + "; ".join(cop[o] for o in p) + "]" for p in progs), "; ".join(map(str, sched)))
     m = dict(N=N, hs=hs, progs=progs, sched=sched, shared=shared); m.update(meta or {})
     return Case(line, coq, m)
 
